@@ -2,12 +2,12 @@
    Proofs/Ring_proofs.v / Proofs/Replicas_proofs.v; the statements are pinned again in
    /verif/pins/C04.v.
 
-   [g] is the global token ring as the locator stores it.  Hypotheses on tokens:
-   [sorted_strict g]            — sorted, no token twice on the whole ring;
-   [sorted_weak g] with [forall d, sorted_strict (dcpos dcf g d)]
-                                — sorted, no token twice inside one datacenter (tokens may
-                                  repeat across datacenters).
-   C04_ring connects both to the raw (unsorted) entry list handed to TokenRing::new. *)
+   [g] is the global token ring as the locator stores it.  The only hypothesis on it is
+   [sorted_weak g] (tokens non-decreasing), which C04_ring shows for every ring built by
+   TokenRing::new.  Tokens may repeat (across datacenters or not): since the ring walk starts at
+   the FIRST position whose token is >= t (partition_point), "clockwise" is definite on such
+   rings too — members sharing a token come in the ring's stable (insertion) order.
+   [nts_keys_ok s]: an NTS map has one entry per datacenter (it is a HashMap). *)
 From SV Require Import Base.Prelude Model.Ring Model.Replicas Proofs.Ring_proofs Proofs.Replicas_proofs.
 From Coq Require Import Permutation.
 Open Scope Z_scope.
@@ -18,35 +18,33 @@ Theorem C04_ring : forall (raw : ring N),
   (NoDup (map fst raw) -> sorted_strict (sort_ring raw)).
 Proof. exact (fun raw => conj (sort_ring_sorted raw) (conj (sort_ring_perm raw) (sort_ring_strict raw))). Qed.
 
-(* with distinct tokens the ring walk starts at the first token >= t and wraps around *)
+(* the ring walk starts at the first token >= t and wraps around *)
 Theorem C04_ring_range : forall (g : ring N) t,
-  sorted_strict g -> ring_range_full g t = clockwise g t.
+  sorted_weak g -> ring_range_full g t = clockwise g t.
 Proof. exact (@ring_range_full_clockwise N). Qed.
 
 (* SimpleStrategy: the on-the-fly walker = "the first RF distinct nodes clockwise from the token" *)
 Theorem C04_simple : forall (g : ring N) t rf,
-  sorted_strict g -> simple_replicas g t rf = spec_simple g t rf.
+  sorted_weak g -> simple_replicas g t rf = spec_simple g t rf.
 Proof. exact (simple_spec (fun _ => None) (fun _ => None)). Qed.
 
 (* NetworkTopologyStrategy, one datacenter: the iterator with its counters = the walk of the
    property text (rack new, or repeats still allowed, until min(RF, nodes) are found) *)
 Theorem C04_nts : forall dcf rackf (g : ring N) t d rf,
-  sorted_weak g -> sorted_strict (dcpos dcf g d) ->
-  nts_replicas dcf rackf g t d rf = spec_nts_dc dcf rackf g t d rf.
+  sorted_weak g -> nts_replicas dcf rackf g t d rf = spec_nts_dc dcf rackf g t d rf.
 Proof. exact nts_spec. Qed.
 
 (* every strategy, restricted or not, precomputed or not: reported replicas = specification *)
 Theorem C04_replicas : forall dcf rackf (g : ring N) pre t s dc,
-  sorted_strict g ->
+  sorted_weak g ->
   rs_iter dcf rackf g pre t (replicas_for dcf rackf g pre t s dc) = spec_replicas dcf rackf g t s dc.
 Proof. exact replicas_spec. Qed.
 
-(* NTS also when tokens repeat across datacenters (distinct inside each datacenter) *)
-Theorem C04_replicas_nts : forall dcf rackf (g : ring N) pre t m dc,
-  sorted_weak g -> (forall d, sorted_strict (dcpos dcf g d)) ->
-  rs_iter dcf rackf g pre t (replicas_for dcf rackf g pre t (NTS m) dc) =
-  spec_replicas dcf rackf g t (NTS m) dc.
-Proof. exact replicas_spec_nts. Qed.
+(* the same for the ring TokenRing::new builds from ANY entry list (repeated tokens included) *)
+Theorem C04_replicas_any_ring : forall dcf rackf (raw : ring N) pre t s dc,
+  rs_iter dcf rackf (sort_ring raw) pre t (replicas_for dcf rackf (sort_ring raw) pre t s dc) =
+  spec_replicas dcf rackf (sort_ring raw) t s dc.
+Proof. exact (fun dcf rackf raw pre t s dc => replicas_spec dcf rackf (sort_ring raw) pre t s dc (sort_ring_sorted raw)). Qed.
 
 (* the prefix properties the precomputation relies on *)
 Theorem C04_prefix_simple : forall (g : ring N) t rf m,
@@ -60,9 +58,9 @@ Proof. exact prefix_nts. Qed.
 
 (* token snap: a token and the ring token its lookup lands on have the same replicas *)
 Theorem C04_token_snap : forall dcf rackf (g : ring N) t d rf e,
-  (sorted_strict g -> get_entry_for_token g t = Some e ->
+  (sorted_weak g -> get_entry_for_token g t = Some e ->
      simple_replicas g (fst e) rf = simple_replicas g t rf) /\
-  (sorted_strict (dc_ring dcf g d) -> get_entry_for_token (dc_ring dcf g d) t = Some e ->
+  (get_entry_for_token (dc_ring dcf g d) t = Some e ->
      nts_replicas dcf rackf g (fst e) d rf = nts_replicas dcf rackf g t d rf).
 Proof.
   exact (fun dcf rackf g t d rf e =>
@@ -72,8 +70,8 @@ Qed.
 (* lookups in the precomputed data = on-the-fly computation, for EVERY set of strategies the
    precomputation was run for (compressed ring, per-RF rings above the rack count, fallback) *)
 Theorem C04_precomputed : forall dcf rackf (g : ring N) pre t d rf,
-  (sorted_strict g -> get_simple g pre t rf = simple_replicas g t rf) /\
-  (sorted_strict (dc_ring dcf g d) -> get_nts dcf rackf g pre t d rf = nts_replicas dcf rackf g t d rf).
+  (sorted_weak g -> get_simple g pre t rf = simple_replicas g t rf) /\
+  get_nts dcf rackf g pre t d rf = nts_replicas dcf rackf g t d rf.
 Proof.
   exact (fun dcf rackf g pre t d rf =>
            conj (precomputed_simple g pre t rf) (precomputed_nts dcf rackf g pre t d rf)).
@@ -92,7 +90,7 @@ Proof.
 Qed.
 
 Theorem C04_precomputed_any : forall dcf rackf (g : ring N) pre pre' t s dc,
-  sorted_strict g ->
+  sorted_weak g ->
   rs_iter dcf rackf g pre t (replicas_for dcf rackf g pre t s dc) =
   rs_iter dcf rackf g pre' t (replicas_for dcf rackf g pre' t s dc).
 Proof. exact precomputed_any. Qed.
@@ -114,7 +112,7 @@ Proof. exact nts_min. Qed.
 
 (* the views of one replica set describe the same nodes *)
 Theorem C04_views_len : forall dcf rackf (g : ring N) pre t s dc,
-  sorted_weak g -> (forall d, sorted_strict (dcpos dcf g d)) -> nts_keys_ok s ->
+  nts_keys_ok s ->
   rs_len dcf g (replicas_for dcf rackf g pre t s dc) =
   List.length (rs_iter dcf rackf g pre t (replicas_for dcf rackf g pre t s dc)).
 Proof. exact len_view. Qed.
@@ -124,46 +122,29 @@ Theorem C04_views_nth : forall dcf rackf (g : ring N) pre t s k,
 Proof. exact nth_view. Qed.
 
 Theorem C04_views_choose : forall dcf rackf (g : ring N) pre t s dc index,
-  sorted_weak g -> (forall d, sorted_strict (dcpos dcf g d)) -> nts_keys_ok s ->
+  nts_keys_ok s ->
   rs_choose dcf rackf g pre t (replicas_for dcf rackf g pre t s dc) index =
   nth_error (rs_iter dcf rackf g pre t (replicas_for dcf rackf g pre t s dc)) index.
 Proof. exact choose_view'. Qed.
 
 Theorem C04_views_nodup : forall dcf rackf (g : ring N) pre t,
-  sorted_strict g -> forall s dc, NoDup (rs_iter dcf rackf g pre t (replicas_for dcf rackf g pre t s dc)).
+  sorted_weak g -> forall s dc, NoDup (rs_iter dcf rackf g pre t (replicas_for dcf rackf g pre t s dc)).
 Proof. exact iter_NoDup. Qed.
 
 (* the ring-ordered view: exactly the set's nodes, in the order of their first position on the
    ring walk from the token; the code's `assert!(all_replicas.is_empty())` never fires *)
 Theorem C04_views_ordered : forall dcf rackf (g : ring N) pre t,
-  sorted_strict g -> forall s dc, nts_keys_ok s ->
+  sorted_weak g -> forall s dc, nts_keys_ok s ->
   rs_ordered dcf rackf g pre t (replicas_for dcf rackf g pre t s dc) =
   (filter (fun x => mem x (rs_iter dcf rackf g pre t (replicas_for dcf rackf g pre t s dc)))
           (uniq (ring_range g t)), []).
 Proof. exact ordered_view. Qed.
 
 Theorem C04_views_ordered_perm : forall dcf rackf (g : ring N) pre t,
-  sorted_strict g -> forall s dc, nts_keys_ok s ->
+  sorted_weak g -> forall s dc, nts_keys_ok s ->
   Permutation (fst (rs_ordered dcf rackf g pre t (replicas_for dcf rackf g pre t s dc)))
               (rs_iter dcf rackf g pre t (replicas_for dcf rackf g pre t s dc)).
 Proof. exact ordered_perm. Qed.
-
-(* ---- the known class: a token owned by two nodes (finding F18) --------------------------
-   The binary search of ring_range_full lands on the LAST of equal tokens.  With a token shared
-   by nodes of two datacenters (inside the property's quantifier) the ordered view of an
-   unrestricted NTS set can start with a non-replica, and a SimpleStrategy answer differs
-   between the precomputed and the on-the-fly path.  The theorems above therefore assume
-   [sorted_strict g] for those statements;  KnownClass := the global ring repeats a token. *)
-Theorem C04_views_ordered_refuted :
-  exists dcf rackf g pre t s dc,
-    sorted_weak g /\ (forall d, sorted_strict (dcpos dcf g d)) /\ nts_keys_ok s /\
-    ~ Permutation (fst (rs_ordered dcf rackf g pre t (replicas_for dcf rackf g pre t s dc)))
-                  (rs_iter dcf rackf g pre t (replicas_for dcf rackf g pre t s dc)).
-Proof. exact ordered_dup_refuted. Qed.
-
-Theorem C04_precomputed_refuted :
-  exists (g : ring N) pre t rf, sorted_weak g /\ get_simple g pre t rf <> simple_replicas g t rf.
-Proof. exact precomputed_dup_refuted. Qed.
 
 (* ---- non-vacuity: the 7-node, 2-datacenter ring of the repository's own tests -----------
    nodes A..G = 1..7; eu = 1, us = 2; racks r1 = 1, r2 = 2 *)
@@ -177,8 +158,11 @@ Definition ex_raw : ring N :=
    (150,5);(750,5);(200,6);(450,6);(500,7);(800,7)].
 Definition ex_g := sort_ring ex_raw.
 
-Example C04_ex_hyps : sorted_strict ex_g /\ nts_keys_ok (NTS [(1%N, 3%nat); (2%N, 3%nat)]).
-Proof. split; [apply sorted_strictb_spec; vm_compute; reflexivity|]. cbn. repeat constructor; cbn; intuition congruence. Qed.
+Example C04_ex_hyps : sorted_weak ex_g /\ sorted_strict ex_g /\ nts_keys_ok (NTS [(1%N, 3%nat); (2%N, 3%nat)]).
+Proof.
+  split; [apply sort_ring_sorted|]. split; [apply sorted_strictb_spec; vm_compute; reflexivity|].
+  cbn. repeat constructor; cbn; intuition congruence.
+Qed.
 
 Example C04_ex_simple : simple_replicas ex_g 160 2 = [6; 1]%N /\ simple_replicas ex_g 701 8 = [5; 7; 2; 1; 6; 3; 4]%N.
 Proof. split; vm_compute; reflexivity. Qed.
@@ -201,17 +185,19 @@ Example C04_ex_views :
   rs_iter ex_dcf ex_rackf ex_g pre 160 (replicas_for ex_dcf ex_rackf ex_g pre 160 (NTS [(1%N, 2%nat); (2%N, 2%nat)]) (Some 2%N)) = [6; 4]%N.
 Proof. repeat split; vm_compute; reflexivity. Qed.
 
+(* the witness of the repaired finding F18: a token owned by nodes of two datacenters *)
 Example C04_ex_dup :
   rs_iter dup_dcf (fun _ => None) dup_ring [] 10 (RChained [(1%N, 1%nat)]) = [1%N] /\
-  fst (rs_ordered dup_dcf (fun _ => None) dup_ring [] 10 (RChained [(1%N, 1%nat)])) = [3; 1]%N.
-Proof. split; vm_compute; reflexivity. Qed.
+  rs_ordered dup_dcf (fun _ => None) dup_ring [] 10 (RChained [(1%N, 1%nat)]) = ([1%N], []) /\
+  get_simple dup_ring [] 5 1 = simple_replicas dup_ring 5 1 /\ simple_replicas dup_ring 10 2 = [1; 2]%N.
+Proof. repeat split; vm_compute; reflexivity. Qed.
 
 Print Assumptions C04_ring.
 Print Assumptions C04_ring_range.
 Print Assumptions C04_simple.
 Print Assumptions C04_nts.
 Print Assumptions C04_replicas.
-Print Assumptions C04_replicas_nts.
+Print Assumptions C04_replicas_any_ring.
 Print Assumptions C04_prefix_simple.
 Print Assumptions C04_prefix_nts.
 Print Assumptions C04_token_snap.
@@ -227,5 +213,3 @@ Print Assumptions C04_views_choose.
 Print Assumptions C04_views_nodup.
 Print Assumptions C04_views_ordered.
 Print Assumptions C04_views_ordered_perm.
-Print Assumptions C04_views_ordered_refuted.
-Print Assumptions C04_precomputed_refuted.
